@@ -82,7 +82,10 @@ def step (g : AGraph) (j : Json) : AGraph × Json :=
     | some stmts =>
       match indexStartOptimize stmts with
       | none => (g, Json.mkObj [("panic", .bool true)])
-      | some plan => (g, Json.mkObj [("plan", .arr (plan.map canonStmt).toArray)])
+      | some plan => (g, Json.mkObj [("plan", .arr (plan.map canonStmt).toArray),
+          -- a differing plan is a broken correspondence (the theorems speak about THIS plan), not yet
+          -- a wrong answer: the check goes on looking for rows that differ
+          ("corr", .str "core.IndexStartOptimize = Grip.indexStartOptimize (the plan the theorems planning_preserves* are about)")])
   | some "query" =>
     match (arr? j "q").bind stmtsOf with
     | none => (g, Json.mkObj [("skip", .bool true)])
